@@ -106,3 +106,74 @@ pub fn run(scenario: &str, cex: &Value) -> Result<String, String> {
     _ => Err("?".to_owned()),
   }
 }
+
+use identity_core::common::Url;
+use identity_credential::credential::{Credential, CredentialBuilder, Issuer, Subject};
+use identity_credential::revocation::status_list_2021::{
+  CredentialStatus, StatusList2021Credential, StatusList2021CredentialBuilder, StatusPurpose,
+};
+
+fn sl_credential(purpose: StatusPurpose) -> StatusList2021Credential {
+  let url = Url::parse("http://example.com").unwrap();
+  StatusList2021CredentialBuilder::new(StatusList2021::default())
+    .issuer(Issuer::Url(url.clone()))
+    .purpose(purpose)
+    .subject_id(url)
+    .build()
+    .unwrap()
+}
+
+/// purpose-dependent irreversibility and status mapping, through the public credential API
+/// (`update` + `MutStatusList::set_entry`, `set_credential_status`, `entry`), for both purposes; the solver's
+/// index is transported by its bit offset.
+pub fn oneway(cex: &Value) -> Result<String, String> {
+  let idx = 800 + (u(cex, "idx") as usize % 8);
+  let other = 800 + ((u(cex, "idx") as usize + 1) % 8);
+  for purpose in [StatusPurpose::Revocation, StatusPurpose::Suspension] {
+    for via_update in [true, false] {
+      let r = no_panic(move || {
+        let mut c = sl_credential(purpose);
+        let mut holder: Credential = CredentialBuilder::default()
+          .issuer(Url::parse("http://example.com/i").unwrap())
+          .subject(Subject::with_id(Url::parse("http://example.com/s").unwrap()))
+          .build()
+          .unwrap();
+        let mut log = Vec::new();
+        let mut model = [false; 2];
+        for (which, val) in [(0usize, false), (1, true), (0, true), (0, false), (1, false), (0, true)] {
+          let i = if which == 0 { idx } else { other };
+          let ok = if via_update {
+            c.update(|l| l.set_entry(i, val)).is_ok()
+          } else {
+            c.set_credential_status(&mut holder, i, val).is_ok()
+          };
+          let forbidden = purpose == StatusPurpose::Revocation && !val && model[which];
+          if ok == forbidden {
+            log.push(format!("{purpose:?}: set({i},{val}) ok={ok} while entry was {}", model[which]));
+          }
+          if ok {
+            model[which] = val;
+          }
+          for (w, j) in [(0usize, idx), (1, other)] {
+            let want = match (purpose, model[w]) {
+              (StatusPurpose::Revocation, true) => CredentialStatus::Revoked,
+              (StatusPurpose::Suspension, true) => CredentialStatus::Suspended,
+              _ => CredentialStatus::Valid,
+            };
+            match c.entry(j) {
+              Ok(s) if s == want => {}
+              other => log.push(format!("{purpose:?}: entry({j}) = {other:?}, model {want:?}")),
+            }
+          }
+        }
+        log
+      });
+      match r {
+        Err(msg) => return Ok(format!("status list credential panicked: {msg}")),
+        Ok(log) if !log.is_empty() => return Ok(log.join("; ")),
+        _ => {}
+      }
+    }
+  }
+  Err("one-way revocation and status mapping agree with the model".to_owned())
+}
